@@ -199,7 +199,7 @@ UNIT = dict(
         dict(file=UT, path="fn fee"),
         dict(file=CA, path="fn pay_fee", rewrites=[dict(rule="subst", id="R4.super_path", old="super::utils::fee(action, &state)", new="crate::fee(action, &state)")]),
     ],
-    harness=HARNESS,
+    harness=HARNESS, harness_timeout=1500,
     harnesses=[
         dict(name="fee_is_base_plus_multiplier_times_size", obligation="checked_actions::utils::fee::ensures#total==base+multiplier*size(exact)",
              label="the fee of an action equals base + multiplier x size in exact arithmetic, with the components configured on chain at that moment"),
